@@ -1185,6 +1185,26 @@ def check_copies_fold(run, tree):
             run.violated(construct, "src/osyris/core/array.py", "raises %s" % e, label)
         except ERR as e:
             run.unresolved(construct, "src/osyris/core/array.py", "cannot fold: %s" % e)
+    # ---- Array on a READ-ONLY buffer (np.broadcast_to views, memory maps): the copy is a fresh buffer all the same - the original can be
+    # (and is, by whoever owns the underlying memory) updated later, and the copy must not follow it
+    for label, deep in (("copy()", None), ("copy.copy", False), ("copy.deepcopy", True)):
+        construct = "%s::%s[read-only buffer]" % (af.ARRAY_Q, label)
+        try:
+            ro = af.new_array(tree, hk, "RO", "m")
+            buf = ro._attrs.get("_array")
+            if not hasattr(buf, "flags"):
+                raise Unsupported("buffer model without flags")
+            buf.flags.writeable = False
+            m = tree.method(ro._cls, "copy")
+            r = eva.invoke(m, [ro], {}, None) if deep is None else eva.py_copy(ro, deep=deep)
+            st = af.arr_state(r) if isinstance(r, PyObj) else None
+            ok = isinstance(r, PyObj) and r is not ro and st == (("copy", "RO"), "m")
+            run.ob(construct, ok, "src/osyris/core/array.py", "%s -> %s%s" % (label, st, "" if ok else " (required a fresh copy of the buffer although it is read-only)"),
+                   "b = %s of an Array on a read-only view (np.broadcast_to, a memory map): b shares the memory and follows later changes of the underlying data" % label)
+        except (Raised, ProgramRaised) as e:
+            run.violated(construct, "src/osyris/core/array.py", "raises %s" % e, label)
+        except ERR as e:
+            run.unresolved(construct, "src/osyris/core/array.py", "cannot fold: %s" % e)
     # ---- Vector
     for n in (3, 1):
         v, _ = make_vector(tree, {c: "L." + c for c in "xyz"[:n]}, unit="m", hooks=hooks)
